@@ -47,13 +47,16 @@ CASES = [
 ]
 import py2lean_np, py2lean_scatter, py2lean_imp, py2lean_holdout, py2lean_arrow
 # other per-run translators: (generated file, obligations module, generator, its Unsupported)
-OTHER = {"C17ar": ("ArrowC17.lean", "LK.Proofs.ArrowC17", py2lean_arrow.translate, py2lean_arrow.Unsupported),
+OTHER = {"C17sc": ("ArrowScalarC17.lean", "LK.Proofs.ArrowC17", py2lean_arrow.translate_scalar, py2lean_arrow.Unsupported),
+         "C17ar": ("ArrowC17.lean", "LK.Proofs.ArrowC17", py2lean_arrow.translate, py2lean_arrow.Unsupported),
          "C05ho": ("HoldoutC05.lean", "LK.Proofs.HoldoutC05", py2lean_holdout.generate, py2lean_holdout.Unsupported),
          "C08imp": ("ImpC08.lean", "LK.Proofs.ImpC08", py2lean_imp.translate, py2lean_imp.Unsupported),
          "C06np": ("NpC06.lean", "LK.Proofs.NpC06", py2lean_np.translate_dcg, py2lean_np.Unsupported),
          "C08np": ("NpC08.lean", "LK.Proofs.NpC08", py2lean_np.translate_learn, py2lean_np.Unsupported),
          "C04sc": ("ScatterC04.lean", "LK.Proofs.ScatterC04", py2lean_scatter.generate, py2lean_scatter.Unsupported)}
 CASES += [
+ ("C17sc", "data/builder.py", "        val_array = val_array.take(pa.array(np.argsort(nums.to_numpy(), kind=\"stable\")))\n", "", "break"),
+ ("C17sc", "data/builder.py", "        tbl_mask[nums.to_numpy()] = True", "        tbl_mask[nums.to_numpy() - 1] = True", "break"),
  ("C17ar", "data/builder.py", "    sizes[rows + 1] = lists.value_lengths().to_numpy()", "    sizes[rows] = lists.value_lengths().to_numpy()", "break"),
  ("C17ar", "data/builder.py", "    if not np.all(valid):\n        rows = rows[valid]\n        lists = lists.drop_null()\n\n    # reorder input to align with the output\n    order = np.argsort(rows)\n    if np.any(np.diff(order) < 0):\n        lists = lists.take(order)\n        rows = rows[order]",
   "    order = np.argsort(rows)\n    if np.any(np.diff(order) < 0):\n        lists = lists.take(order)\n        rows = rows[order]\n    if not np.all(valid):\n        rows = rows[valid]\n        lists = lists.drop_null()", "break"),
